@@ -413,10 +413,11 @@ def main(argv=None):
         "known_findings": [{"obligation": k["obligation"], "task": k["task"], "what": k["finding"]} for k in known_hits],
         "violations": [{"obligation": v["obligation"], "task": v["task"], "replay": v["replay"]} for v in violations],
         "per_obligation": per_id,
+        "n_tasks": len(results),
         "tasks": [
             {"label": r["label"], "paths": r["paths"], "queries": r["queries"], "solver_time_s": r["solver_time_s"],
              "wall_s": r.get("task_wall_s"), "exhaustive": r["exhaustive"], "aborted_paths": r.get("aborted_paths", 0)}
-            for r in results
+            for r in (results if len(results) <= 400 else sorted(results, key=lambda r: -(r.get("task_wall_s") or 0))[:400])
         ],
         "exhaustive": not inexhaustive and not unsupported and not errors,
         "not_exhaustive": inexhaustive,
